@@ -97,7 +97,16 @@ def build_harness():
         if not os.path.exists(gs) or open(gs).read() != want:
             open(gs, "w").write(want)
         t0 = time.time()
-        rc, out, err = run(["go", "build", "-tags", "verif", "-o", HARNESS, "."], cwd=HARNESS_SRC, env=GOENV, timeout=1800)
+        cmd = ["go", "build", "-tags", "verif", "-o", HARNESS]
+        if os.path.realpath(REPO) != "/repo":
+            # a repository elsewhere (VERIF_REPO: background sweeps on a snapshot): same module file with the two replace lines redirected
+            mod = open(os.path.join(HARNESS_SRC, "go.mod")).read()
+            mod = mod.replace("=> /repo/client", "=> " + os.path.join(REPO, "client")).replace("=> /repo\n", "=> " + REPO + "\n")
+            modfile = os.path.join(WORK, "go.alt.mod")
+            open(modfile, "w").write(mod)
+            open(os.path.join(WORK, "go.alt.sum"), "w").write(want)
+            cmd += ["-modfile", modfile]
+        rc, out, err = run(cmd + ["."], cwd=HARNESS_SRC, env=GOENV, timeout=1800)
         if rc != 0:
             raise BuildError("go build -tags verif (harness against /repo)", (out + err).decode(errors="replace"))
         return time.time() - t0
